@@ -668,6 +668,25 @@ def rule_section_tables(repo: Repo) -> List[Ob]:
         ok2 = False if False in verdicts else None if None in verdicts else True
     _emit(obs, "M-section-tables", f"{UIT}::{helper.qualname}::unconditioned-only", UIT, helper.node.lineno, helper.qualname, ok2,
           "only unconditioned draws / constants are recorded as the meaning of a variable" if ok2 else ("a conditioned assignment can be recorded as the value of a functional argument" if ok2 is False else "recording tests not recognised"))
+    # the table of draws holds the distribution of a *drawing* assignment under the drawn variable; a variable that merely copies a drawn
+    # variable is the same random quantity, not a second draw with the same law: it belongs into the table of references
+    from ..shape import expanded as _expanded
+    hx = _expanded(repo, helper)
+    dist_tabs = {src(x.value.value) for x in walk_no_nested(hx) if isinstance(x, ast.Assign) and any(isinstance(t, ast.Attribute) and t.attr == "argument_dist" for t in x.targets)
+                 and isinstance(x.value, ast.Subscript)}
+    for dt in sorted(dist_tabs):
+        stores_ = [x for x in walk_no_nested(hx) if isinstance(x, ast.Assign) and isinstance(x.targets[0], ast.Subscript) and src(x.targets[0].value) == dt]
+        keyd = f"{UIT}::{helper.qualname}::draw-table"
+        copies = [x for x in stores_ if any(isinstance(y, ast.Subscript) and src(y.value) == dt and isinstance(y.ctx, ast.Load) for y in ast.walk(x.value))]
+        nondist = [x for x in stores_ if x not in copies and not any(isinstance(y, ast.Attribute) and y.attr == "distribution" for y in ast.walk(x.value))]
+        if copies:
+            obs.append(Ob("M-section-tables", keyd, UIT, copies[0].lineno, helper.qualname, False,
+                          f"`{src(copies[0])[:80]}` records a variable that copies a drawn variable as a draw of its own: functionals of the copy are evaluated as if it were independent of the "
+                          "original (E(x*Sin(y)) with y = x becomes E(x)*E(Sin(x)))"))
+        elif stores_ and not nondist:
+            obs.append(Ob("M-section-tables", keyd, UIT, stores_[0].lineno, helper.qualname, True, "the table of draws is filled only with the distributions of drawing assignments"))
+        elif stores_:
+            obs.append(inconclusive("M-section-tables", keyd, UIT, nondist[0].lineno, helper.qualname, f"`{src(nondist[0])[:60]}` stores something that is not recognised as the distribution of the assignment"))
     return obs
 
 
@@ -997,7 +1016,71 @@ def mut_dependency_sources(repo: Repo) -> List[Mutant]:
     return []
 
 
+# ------------------------------------------------------------------ dependency graph: an edge keeps its strongest kind
+def rule_edge_max(repo: Repo) -> List[Ob]:
+    """Graph.adj[v][u] is 0 (no edge), 1 (linear) or 2 (non-linear).  A variable can depend on another both linearly and non-linearly
+    (x = x**2 {1/2} x + 1); add_edge is called once per occurrence, in any order.  The stored kind is the maximum of what was registered:
+    a plain overwrite lets a later linear occurrence hide the non-linear one, a defective variable is classified effective and its
+    recurrence system never closes."""
+    f = repo.function("utils/graph.py", "Graph.add_edge")
+    key = "utils/graph.py::Graph.add_edge::strongest-kind"
+    selfn = f.params()[0]
+    from ..shape import conjuncts as _cj
+    stores = [st for st in walk_no_nested(f.node) if isinstance(st, (ast.Assign, ast.AugAssign)) and
+              any(isinstance(t, ast.Subscript) and src(t).startswith(f"{selfn}.adj") for t in (st.targets if isinstance(st, ast.Assign) else [st.target]))]
+    if not stores:
+        return [inconclusive("M-edge-kind", key, f.relpath, f.node.lineno, f.qualname, "store into the adjacency matrix not recognised")]
+    c = cfg_of(f.node)
+    obs = []
+    for st in stores:
+        tgt = (st.targets[0] if isinstance(st, ast.Assign) else st.target)
+        tsrc = src(tgt)
+        val = st.value
+        if isinstance(val, ast.Call) and call_name(val) == "max" and any(src(a) == tsrc for a in val.args):
+            obs.append(Ob("M-edge-kind", key, f.relpath, st.lineno, f.qualname, True, "the stored kind is max(old, new)"))
+            continue
+        facts = []
+        for t, reach in controlling_tests(c, node_for(c, st)):
+            if isinstance(t.ast, ast.expr) and isinstance(reach, bool):
+                facts += _cj(t.ast, reach)
+        grows = False
+        for fa, tr in facts:
+            if isinstance(fa, ast.Compare) and len(fa.ops) == 1:
+                l, r_, op = src(fa.left), src(fa.comparators[0]), type(fa.ops[0])
+                newv = src(val)
+                if tr and ((op in (ast.Gt, ast.GtE) and l == newv and r_ == tsrc) or (op in (ast.Lt, ast.LtE) and l == tsrc and r_ == newv)):
+                    grows = True
+                if not tr and ((op in (ast.LtE, ast.Lt) and l == newv and r_ == tsrc) or (op in (ast.GtE, ast.Gt) and l == tsrc and r_ == newv)):
+                    grows = True
+        if grows:
+            obs.append(Ob("M-edge-kind", key, f.relpath, st.lineno, f.qualname, True, "an edge kind is overwritten only by a stronger one"))
+        elif not facts:
+            obs.append(Ob("M-edge-kind", key, f.relpath, st.lineno, f.qualname, False,
+                          f"`{src(st)}` overwrites the kind of an edge unconditionally: the last registered occurrence wins, a later linear occurrence hides a non-linear dependency "
+                          "(x = x**2 {1/2} x + 1 is classified effective, the analysis does not terminate instead of refusing)"))
+        else:
+            obs.append(inconclusive("M-edge-kind", key, f.relpath, st.lineno, f.qualname, "guard of the overwrite not recognised"))
+    return obs
+
+
+def mut_edge_max(repo: Repo) -> List[Mutant]:
+    def tr(tree):
+        fn = find_def(tree, "Graph.add_edge")
+        for i, st in enumerate(fn.body):
+            if isinstance(st, ast.If) and "adj" in src(st.test):
+                fn.body[i:i + 1] = st.body
+                return True
+        return False
+    ov = mutate_module(repo, "utils/graph.py", tr)
+    out = [Mutant("last-edge-kind-wins", ov, "fire", "strongest-kind", control=True)] if ov else []
+    ov = text_mutant(repo, "utils/graph.py", "if e > self.adj[v][u]:\n            self.adj[v][u] = e", "self.adj[v][u] = max(self.adj[v][u], e)")
+    if ov:
+        out.append(Mutant("benign-max-spelling", ov, "silent"))
+    return out
+
+
 RULES = {
+    "EDGEMAX": Rule("M-edge-kind", rule_edge_max, 1, "the dependency graph keeps the strongest kind registered for an edge", mut_edge_max, soft=True),
     "IFFLAT": Rule("M-if-flatten", rule_if_flattening, 6, "if/elif/else flattening: `_old` copies for every condition variable, renamed guard copies, accumulated negations, saving assignments first, else last", mut_if_flattening, soft=True),
     "MULTIASSIGN": Rule("M-multi-assign", rule_multi_assign, 3, "single-assignment renaming: pending renamings applied first, all but the last occurrence renamed, renaming cleared at the last", mut_multi_assign, soft=True),
     "DISTREWRITE": Rule("M-dist-rewrite", rule_dist_rewrite, 4, "location/scale rewriting of Normal/Uniform/Laplace/Exponential draws preserves the law (exact rational-function check of template and fresh parameters)", mut_dist_rewrite, soft=True),
